@@ -244,6 +244,7 @@ fn c11_bytes_mul_clamp() {
     fin!(r);
 }
 
+
 // vacuity canary: must FAIL; the runner treats a passing canary as a broken tool chain.
 // @unit tier=q prop=CANARY
 #[kani::proof]
